@@ -200,6 +200,8 @@ class Prov:
             return None
         cls = last.rsplit(":", 1)[1] if ":" in last else ""
         ci = self.repo.classes.get(cls)
+        if ci is not None and not getattr(ci, "record_kind", None) and step.startswith("attr:"):
+            return self._plain_ctor_step(p, step, cls)
         if ci is None or not getattr(ci, "record_kind", None):
             return None
         names = [f for f, _d in ci.record_fields]
@@ -220,6 +222,47 @@ class Prov:
             i = last[3:last.index(":")]
             have = names[int(i)] if i.isdigit() and int(i) < len(names) else None
         return p[:-1] if have == want else ()
+
+    def _plain_ctor_step(self, p: Path, step: str, cls: str):
+        """`Cls(a, b).x` for an ordinary class whose constructor stores a parameter unchanged (`self.x = b`, the only store into self.x in
+        __init__): the path of that argument; () when the argument at hand feeds another field; None when the constructor is not that plain"""
+        cache = self.repo.__dict__.setdefault("_plain_ctor_fields", {})
+        if cls not in cache:
+            fields = None
+            init = self.repo.find_method(cls, "__init__")
+            if init is not None and getattr(init, "node", None) is not None and init.params:
+                self_name = init.params[0]
+                params = [x for x in init.params[1:]]
+                stores: Dict[str, list] = {}
+                for n in ast.walk(init.node):
+                    tg = n.targets if isinstance(n, ast.Assign) else [n.target] if isinstance(n, (ast.AnnAssign, ast.AugAssign)) else []
+                    for t in tg:
+                        if isinstance(t, ast.Attribute) and isinstance(t.value, ast.Name) and t.value.id == self_name:
+                            stores.setdefault(t.attr, []).append((n, getattr(n, "value", None)))
+                rebound = {x.id for n in ast.walk(init.node) for x in ([n] if isinstance(n, ast.Name) and isinstance(n.ctx, ast.Store) else [])}
+                fields = {}
+                for a, lst in stores.items():
+                    if len(lst) == 1 and isinstance(lst[0][0], (ast.Assign, ast.AnnAssign)) and isinstance(lst[0][1], ast.Name) and lst[0][1].id in params \
+                            and lst[0][1].id not in rebound and lst[0][0] in init.node.body:
+                        fields[a] = lst[0][1].id
+                fields = (params, fields, set(stores))
+            cache[cls] = fields
+        got = cache[cls]
+        if got is None:
+            return None
+        params, fields, stored = got
+        want = step[5:]
+        last = p[-1]
+        if last.startswith("fresh:"):
+            return None
+        if last.startswith("kw:"):
+            have = last.split(":")[1]
+        else:
+            i = last[3:last.index(":")]
+            have = params[int(i)] if i.isdigit() and int(i) < len(params) else None
+        if want in fields:
+            return p[:-1] if fields[want] == have else ()
+        return None
 
     def _comp_binding(self, name_node: ast.Name):
         """If the name is bound by an enclosing comprehension, return (generator, position-in-target)."""
@@ -408,10 +451,12 @@ class Prov:
             out |= self._trace(st.value, d, s2, depth + 1)
         elif isinstance(st, ast.AugAssign):
             out |= self._ext(self._trace(st.value, d, s2, depth + 1), f"aug:{type(st.op).__name__}")
-            # previous value
-            for d0 in self.rd.defs_reaching(d, name):
-                if (name, d0) not in s2:
-                    out |= self._trace(ast.Name(id=name, ctx=ast.Load()), d, s2, depth + 1) if False else set()
+            # previous value: x += e keeps what x held (a list / text that is extended, a number that is accumulated); the name is read
+            # at the statement itself, where the incoming definitions are the ones before it
+            try:
+                out |= self._trace_name(ast.Name(id=name, ctx=ast.Load()), d, s2, depth + 1)
+            except (KeyError, RecursionError):
+                pass
             out.add((f"aug:{name}",))
         elif isinstance(st, ast.For):
             base = self._ext(self._trace(st.iter, d, s2, depth + 1), "elem")
